@@ -430,6 +430,20 @@ class Case:
                 sock = n.peer_sockets.get(c.ident)
                 self.witness("fault.closed_connection_never_released",
                              {"socket_closed": getattr(sock, "closed", None), "conn": str(c)})
+        # ... and its two worker threads have ended (they notice the stop flag at their next queue poll)
+        import time
+        from diameter.node.peer import PEER_CLOSED as _closed
+        end = time.time() + 1.5
+        while time.time() < end:
+            left = [(c, t) for c in list(h.conns) if c.state == _closed
+                    for t in (c._read_thread, c._write_thread) if t.is_alive()]
+            if not left:
+                break
+            time.sleep(0.01)
+        for c, t in left[:2]:
+            role = "reader" if t is c._read_thread else "writer"
+            self.witness(f"fault.connection_worker_still_running.{role}",
+                         {"conn": str(c), "buffered": len(getattr(c, "_read_buffer", b""))})
         self.run.cov["released_checks"] = self.run.cov.get("released_checks", 0) + 1
 
     def execute(self):
